@@ -37,7 +37,11 @@ pub fn gen(seed: u64, tier: Tier) -> ScenarioSpec {
     if live {
         spec.api = Api::Incremental;
         if rng.chance(1, 2) {
-            spec.live = Some(gen_live(&mut rng, len, 0));
+            // the connection may drop (the reader runs dry, most interestingly between two events of one
+            // frame) and the application carries on from bytes_read(): the rows it sees afterwards are
+            // still the rows of the columns
+            spec.live = Some(gen_live(&mut rng, len, 12));
+            spec.knobs.insert("resume".into(), 1);
         }
     }
     spec.knobs.insert("prelude".into(), gen_prelude(&mut rng, &[1, 4, 5], 8));
